@@ -50,6 +50,8 @@ def run_concrete(job, model):
     Wc = world.ConcreteWorld(model, pkg)
     old = world.W
     world.W = Wc
+    import warnings
+    warnings.simplefilter('ignore')
     try:
         fn(Wc, job.cfg)
     except world.ReplayMismatch as e:
@@ -86,7 +88,14 @@ def run_job(args):
             for n in Ws.notes:
                 e.notes.append('NOTE: ' + n)
         if len(path_models) < job.validate and e.sym_decisions > 0:
-            r, m = e._check()
+            # a model of the path condition with moderate magnitudes (only
+            # to pick the concrete validation run; the claim is unaffected)
+            import z3
+            rng = [z3.And(t >= -6, t <= 6) for _, t in e.inputs + e.apps
+                   if z3.is_real(t)]
+            r, m = e._check(z3.And(*rng) if rng else None)
+            if r != 'sat':
+                r, m = e._check()
             if r == 'sat':
                 path_models.append(e.model_dict(m))
 
@@ -106,6 +115,12 @@ def run_job(args):
         if f.label in seen:
             continue
         status, fails = run_concrete(job, f.model)
+        for alt in getattr(f, 'alt_models', []):
+            if status == 'failed':
+                break
+            status, fails = run_concrete(job, alt)
+            if status == 'failed':
+                f.model = alt
         seen[f.label] = status
         rec = dict(label=f.label, kind=f.kind, detail=f.detail,
                    replay_status=status,
